@@ -95,6 +95,14 @@ func (urlTree *URLTree[T]) insertWithConvergenceIndication(
 
 		// If matching constant child already exists, navigate into it
 		if constantChild, constantFound := currentNode.ConstantChildren[urlPart.Value]; constantFound {
+			// Children are kept by their text only: a host label and a path segment with
+			// the same text (a.com.net/x and a.com/net/x) cannot both hang below one node.
+			// Sharing the node made lookups answer with the other URL's value.
+			if declaredURL && constantChild.IsPartOfHost != urlPart.IsPartOfHost {
+				return convergenceOccurred, fmt.Errorf(
+					"URL %v conflicts with a declared URL in which '%v' is a %v",
+					url, urlPart.Value, partKind(constantChild.IsPartOfHost))
+			}
 			currentNode = constantChild
 			continue
 		}
@@ -237,6 +245,13 @@ func convergeNodesPaths[T any](nodes []*Node[T], paramIndex int) *Node[T] {
 		ParametricChild:  convergedParametricChild,
 		WildcardChild:    wildcardChild,
 	}
+}
+
+func partKind(isPartOfHost bool) string {
+	if isPartOfHost {
+		return "host label"
+	}
+	return "path segment"
 }
 
 func buildAssumedPathParamName(paramIndex int) string {
